@@ -54,6 +54,8 @@ def cond_kind(c, var):
             return ("zero", None)
         if n == "is_equal_rel" and c[2][0] == x and c[2][1][0] == "num":
             return ("near", (c[2][1][1], c[2][2][1] if c[2][2][0] == "num" else None))
+        if n == "is_equal" and c[2][0] == x and c[2][1][0] == "num" and len(c[2]) == 3:
+            return ("near", (c[2][1][1], ("abs", c[2][2][1]) if c[2][2][0] == "num" else None))
     if c[0] == "cmp":
         op, l, r = c[1], c[2], c[3]
         if l == x and r[0] == "num":
@@ -238,6 +240,49 @@ def limit_at_zero(R, var):
     if n is None or d is None or d.is_zero():
         return ("divergent", None)
     return ("finite", Rat(n, d))
+
+
+def first_order_at_zero(R_, var):
+    """f(x) = N/D ~ f0 + x c1(L) for x -> 0+ (L = log x as the atom series.LZ), D(0) a non-zero constant:
+    returns (f0 Poly over constants, c1 Poly over constants and LZ) or None if f diverges / is not of this form"""
+    xa = ("sym", var)
+    lx = LOG(key(Rat(Poly.atom(xa))))
+    Lz = Poly.atom(LZ)
+    pi26 = (Poly.atom(PI) ** 2).scale(Fraction(1, 6))
+
+    def split(p):
+        """(P0, P1): p = P0 + x P1 + O(x^2 log^k), atoms log x -> LZ, Li2(1-x) -> pi^2/6 + x L - x"""
+        P0, P1 = Poly(), Poly()
+        for m, c in p.t.items():
+            t0, t1 = Poly.const(c), Poly()            # value of the monomial: t0 + x t1
+            for atom, e in m:
+                for _ in range(e):
+                    if atom == xa:
+                        a0, a1 = Poly(), Poly.const(1)
+                    elif atom == lx:
+                        a0, a1 = Lz, Poly()
+                    elif isinstance(atom, tuple) and atom[0] == "LI2":
+                        arg = ARGS[atom[1]]
+                        one_minus = (Rat(Poly.const(1)) - arg)
+                        if (one_minus - Rat(Poly.atom(xa))).is_zero():         # Li2(1 - x)
+                            a0, a1 = pi26, Lz - Poly.const(1)
+                        else:
+                            raise NotPolynomial("Li2 argument not of the form 1 - x")
+                    elif isinstance(atom, tuple) and atom[0] in ("const", "sqrtQ") or (isinstance(atom, tuple) and atom[0] == "LOG" and isinstance(atom[1], str)):
+                        a0, a1 = Poly.atom(atom), Poly()
+                    else:
+                        raise NotPolynomial("atom %s has no expansion at 0" % (atom,))
+                    t0, t1 = t0 * a0, t0 * a1 + t1 * a0
+            P0, P1 = P0 + t0, P1 + t1
+        return P0, P1
+    N0, N1 = split(R_.n)
+    D0, D1 = split(R_.d)
+    if not D0.is_const() or not D0.t or LZ in N0.atoms():
+        return None
+    d0 = D0.const_value()
+    f0 = N0.scale(1 / d0)
+    c1 = (N1.scale(d0) - N0 * D1).scale(1 / (d0 * d0))
+    return f0, c1
 
 
 def poly_float(p, scale=False, logz=None):
@@ -434,8 +479,12 @@ def run(F, R, tier):
                 if W is None:
                     R.soft_broken("R4 %s: window is not a constant" % cname)
                 else:
-                    Wf = float(W)
-                    D = 2 * Wf / (1 - Wf) if x0 == 1 else Wf * (1 + float(abs(x0)) * 2)
+                    if isinstance(W, tuple) and W[0] == "abs":          # is_equal(x, x0, eps): |x - x0| < eps
+                        Wf = float(W[1])
+                        D = Wf
+                    else:
+                        Wf = float(W)
+                        D = 2 * Wf / (1 - Wf) if x0 == 1 else Wf * (1 + float(abs(x0)) * 2)
                     c0 = abs(poly_float(cc[0])) or 1.0
                     nxt = [abs(poly_float(c)) for c in cc[deg + 1:]]
                     trunc = sum(c * D ** (deg + 1 + i) for i, c in enumerate(nxt))
@@ -532,6 +581,26 @@ def run(F, R, tier):
                                 % (cname, show(zval)[:60]), key="R3|%s|0c" % cname)
             except NotPolynomial as e:
                 R.soft_broken("R3 %s(0): %s" % (cname, str(e)[:120]))
+        if "zero" in cl and gen is not None and cname != "f_PS":
+            try:
+                tol = None
+                for c_, t_ in cl["zero"][0]:
+                    if t_ and c_[0] == "call" and short(c_[1]) == "is_zero" and len(c_[2]) == 2:
+                        from .rules_c11 import _numeric
+                        tol = _numeric(c_[2][1])
+                corr = first_order_at_zero(gen, var)
+                if tol is not None and corr is not None:
+                    f0, c1 = corr             # f(x) ~ f0 + x * c1(L)
+                    L = math.log(float(tol))
+                    dev = abs(float(tol) * poly_float(c1, logz=L))
+                    ref = abs(poly_float(f0)) if f0.t else None
+                    if ref:
+                        R.check("R4", dev / ref <= float(ACC), "%s: zero window |x| < %.2g: f(x) - f(0) <= %.1e relative"
+                                % (cname, float(tol), dev / ref), loc,
+                                "%s returns its x -> 0 limit for all |x| < %.2g, where the function already differs from the limit "
+                                "by %.1e relative (> 1e-7)" % (cname, float(tol), dev / ref), key="R4z|" + cname)
+            except NotPolynomial as e:
+                R.soft_broken("R4 %s zero window: %s" % (cname, str(e)[:100]))
         q = Fraction(1, 4)
         if (cl.get("at") or {}).get(q) is not None:
             qval = cl["at"][q][1]
